@@ -927,6 +927,8 @@ class Interp:
                 return r
         if fn.module.short() in self.cfg.opaque_modules:
             ret = parse_annotation(self.prog, fn.module, getattr(fn.node, "returns", None))
+            self.emit("OPAQUE", node, fn=fn.qualname, args=[a.key() for a in args],
+                      kwargs={k: v.key() for k, v in kwargs.items()})
             return Sym(self.fresh(f"ret:{fn.qualname}"), ret)
         if _is_stub(fn):
             # Protocol / abstract stub: behaves like an external method
@@ -1128,7 +1130,7 @@ class Interp:
             return NONE
         if isinstance(recv, (Sym, Obj, AbstractExc, SpecialObj)) and self.cfg.record_ext:
             self.emit("EXT", node, recv=recv.key(), method=b.attr, args=[a.key() for a in args],
-                      kwargs={k: v.key() for k, v in kwargs.items()}, arg_values=list(args))
+                      kwargs={k: v.key() for k, v in kwargs.items()}, arg_values=list(args), kwarg_values=dict(kwargs))
         if isinstance(recv, Const) and isinstance(recv.value, str):
             try:
                 if all(isinstance(a, Const) for a in args) and b.attr in ("strip", "startswith", "endswith", "lower", "upper", "encode"):
